@@ -12,6 +12,8 @@ mod ops;
 mod report;
 #[path = "../../../src/scenario.rs"]
 mod scenario;
+#[path = "../../../src/ser.rs"]
+mod ser;
 #[path = "../threads.rs"]
 mod threads;
 
